@@ -7,6 +7,8 @@ sid, props = sys.argv[1], sys.argv[2:]
 src = "/tmp/seed/%s/out" % sid
 if not os.path.isdir(src):
     src = "/tmp/seed_%s/seed_out" % sid
+if os.environ.get("SEED_SRC"):
+    src = os.environ["SEED_SRC"]
 dst = os.path.join(V, "seeded", sid)
 os.makedirs(dst, exist_ok=True)
 for f in ("patch.diff", "demo.rs", "notes.md"):
